@@ -44,6 +44,9 @@ func init() {
 		Trusted:     []string{"go/ssa (x/tools v0.29.0), go/types", "sync.RWMutex semantics", "lock identity by owner type + field (one cache mutex per message store)", "queue.PriorityQueue / queue.SimpleQueue behave as C15 decides"},
 		Assumptions: []string{"the release function and RegisterChainKey are only reached through the module call sites analysed here", "a function does not release a lock that its caller acquired"},
 		Floors:      map[string]int{"D1": 4, "D2": 2, "D3": 4, "D4": 1, "D5": 2},
+		Borrows: []Borrow{
+			{From: "C15", Rules: []string{"D6"}, Why: "D4/D5 rely on the contract of the per-device priority queue: NextAll hands over every parked item (the queue is empty on a nil return), Next yields the lowest counter, nothing is lost; a drain that stops early leaves decryptable messages parked"},
+		},
 		Run:         runC08,
 	})
 }
